@@ -1,0 +1,26 @@
+//go:build verif
+
+package floatingip
+
+// VerifTables returns copies of the allocated and unallocated tables of an IPAM created by NewCrdIPAM.
+// Verification hook (build tag verif), read-only.
+func VerifTables(i IPAM) (allocated, unallocated map[string]FloatingIP, pools []*FloatingIPPool) {
+	ci, ok := i.(*crdIpam)
+	if !ok {
+		return nil, nil, nil
+	}
+	ci.cacheLock.RLock()
+	defer ci.cacheLock.RUnlock()
+	allocated, unallocated = map[string]FloatingIP{}, map[string]FloatingIP{}
+	for k, v := range ci.allocatedFIPs {
+		allocated[k] = *v
+	}
+	for k, v := range ci.unallocatedFIPs {
+		unallocated[k] = *v
+	}
+	pools = append(pools, ci.FloatingIPs...)
+	return
+}
+
+// VerifPool returns the pool a FloatingIP belongs to.
+func VerifPool(f FloatingIP) *FloatingIPPool { return f.pool }
